@@ -684,7 +684,7 @@ class PureScheduler:                                    # pylint: disable=r0902
         """
         self._expiration = \
             None if timeout is None \
-            else time.time() + timeout
+            else time.monotonic() + timeout
 
     def _remaining_timeout(self):
         """
@@ -694,7 +694,7 @@ class PureScheduler:                                    # pylint: disable=r0902
         """
         return \
             None if self._expiration is None \
-            else self._expiration - time.time()
+            else self._expiration - time.monotonic()
 
     async def _tidy_tasks(self, pending):
         """
